@@ -1,3 +1,199 @@
 import Driver.Common
-/-! Driver for property C03 (stub: the model for this property is not built yet). -/
-def main : IO Unit := Driver.run (fun (s : Unit) _ => (s, "unimplemented")) ()
+import Driver.Val
+import TxdbusModel.Gen.Message
+import TxdbusModel.Msg.Message
+import TxdbusModel.Msg.SpecMsg
+/-!
+Driver for property C03.  One operation per line (tokens separated by single spaces).
+
+  build <cls> <next> <max> <er> <as> <path> <member> <iface> <errname> <rserial> <dest> <sender> <sig> <oob> <pre>
+      one constructor call.  cls = call|ret|err|sig; next = DBusMessage._nextSerial before; max = _maxMsgLen of the
+      class; er/as = T|F; a str argument is N (None) or s<strhex>; rserial N or a decimal integer; oob = N
+      (oobFDs=None) or the length of the list given; pre = what marshal.marshal does with the body:
+      `-` (not called: no signature), `ok:<byteshex>:<n>` (bytes, length of the descriptor list afterwards),
+      `err:<ExceptionName>`.
+      -> `ok serial=<n> next=<n> raw=<hex> hdr=<hex> pad=<hex> body=<hex> ufds=<attr> wf=<0|1|->`   (wf: Spec.decodeMsg accepts rawMessage; - when longer than 4096)
+       | `err kind=<ExceptionName> next=<n>`
+  parse <byteshex> <fds>      parseMessage; fds = N | - (empty list) | comma separated integers
+      -> `ok type=<n> serial=<n> er=<T|F> as=<T|F> path=<attr> … unix_fds=<attr> hdr=<n> pad=<hex> body=<hex>`
+       | `err kind=<ExceptionName>`
+  spec <l|B> <type> <flags> <serial> <n> (<code> <typecode> <value>)*n <bodyhex>      Spec.encodeMsg
+      value = decimal unsigned integer for a fixed-size type, s<strhex> for s/o/g
+      -> `<byteshex>`
+
+attr = N | s<strhex> | i<dec> | b0 | b1 | d<16 hex> | ?<kind>
+-/
+open Txdbus Txdbus.Msg Driver
+
+/-- The body as the harness hands it over: the outcome of `marshal.marshal` on it. -/
+structure PreBody where
+  res : Except PyErr (Bytes × Nat)
+
+def preCodec : BodyCodec PreBody where
+  marshal := fun _ body fds =>
+    match body with
+    | none => .error .type
+    | some pb =>
+      match pb.res with
+      | .error x => .error x
+      | .ok (bs, n) =>
+        match fds with
+        | none => .ok (bs, none)
+        | some _ => .ok (bs, some (List.replicate n 0))
+  unmarshal := fun _ raw _ _ => .ok ⟨.ok (raw, 0)⟩
+
+def errOfName (s : String) : PyErr :=
+  if s == "MarshallingError" then .marshalling else if s == "struct.error" then .struct
+  else if s == "TypeError" then .type else if s == "ValueError" then .value
+  else if s == "IndexError" then .index else if s == "KeyError" then .key
+  else if s == "AttributeError" then .attribute else if s == "UnicodeError" then .unicode
+  else if s == "RuntimeError" then .runtime else if s == "StopIteration" then .stopIteration
+  else if s == "RecursionError" then .recursion else .other
+
+def optStr? (t : String) : Option (Option (List Char)) :=
+  if t == "N" then some none
+  else if t.startsWith "s" then (hexToChars? (t.drop 1).toString).map some
+  else none
+
+def bool? (t : String) : Option Bool :=
+  if t == "T" then some true else if t == "F" then some false else none
+
+def pre? (t : String) : Option (Option PreBody) :=
+  if t == "-" then some none
+  else match t.splitOn ":" with
+    | ["ok", h, n] =>
+      match hexToBytes? h, n.toNat? with
+      | some bs, some k => some (some ⟨.ok (bs, k)⟩)
+      | _, _ => none
+    | ["err", e] => some (some ⟨.error (errOfName e)⟩)
+    | _ => none
+
+def oob? (t : String) : Option (Option (List Int)) :=
+  if t == "N" then some none else t.toNat?.map fun n => some (List.replicate n 0)
+
+def fds? (t : String) : Option (Option (List Int)) :=
+  if t == "N" then some none
+  else if t == "-" then some (some [])
+  else ((t.splitOn ",").mapM String.toInt?).map some
+
+def tf (b : Bool) : String := if b then "T" else "F"
+
+def attrStr : PyVal → String
+  | .none => "N"
+  | .bool b => if b then "b1" else "b0"
+  | .int _ n => "i" ++ toString n
+  | .float w => "d" ++ u64ToHex w
+  | .str _ s => "s" ++ charsToHex s
+  | _ => "?other"
+
+/-- The strict specification decoder on the bytes (`-` for long messages: it re-encodes). -/
+def wfBit (raw : Bytes) : String :=
+  if raw.length > 4096 then "-"
+  else match Spec.decodeMsg raw with
+    | some _ => "1"
+    | none => "0"
+
+def buildStep (toks : List String) : String :=
+  match toks with
+  | [cls, nxt, mx, er, as, path, member, iface, errname, rserial, dest, sender, sg, oob, pre] =>
+    match nxt.toNat?, mx.toNat?, bool? er, bool? as, optStr? path, optStr? member, optStr? iface with
+    | some nxt, some mx, some er, some as, some path, some member, some iface =>
+      match optStr? errname, (if rserial == "N" then some none else rserial.toInt?.map some), optStr? dest,
+            optStr? sender, optStr? sg, oob? oob, pre? pre with
+      | some errname, some rserial, some dest, some sender, some sg, some oob, some pre =>
+        let T := Gen.Message.tables
+        let na : Char → Bool := fun _ => false
+        let st : St := ⟨nxt⟩
+        let call : Option (Call PreBody) :=
+          if cls == "call" then
+            some (.methodCall { path := path, member := member, interface := iface, destination := dest,
+                                signature := sg, body := pre, expectReply := er, autoStart := as, oobFDs := oob })
+          else if cls == "ret" then
+            rserial.map fun rs => .methodReturn { replySerial := rs, body := pre, destination := dest, signature := sg }
+          else if cls == "err" then
+            rserial.map fun rs => .error { errorName := errname, replySerial := rs, destination := dest,
+                                           signature := sg, body := pre, sender := sender }
+          else if cls == "sig" then
+            some (.signal { path := path, member := member, interface := iface, destination := dest,
+                            signature := sg, body := pre })
+          else none
+        match call with
+        | none => "bad-input"
+        | some c =>
+          let r := construct T preCodec na mx st c
+          match r.2 with
+          | .error e => "err kind=" ++ pyErrName e ++ " next=" ++ toString r.1.nextSerial
+          | .ok m =>
+            "ok serial=" ++ toString m.serial ++ " next=" ++ toString r.1.nextSerial ++
+            " raw=" ++ bytesToHex m.raw ++ " hdr=" ++ bytesToHex m.rawHeader ++
+            " pad=" ++ bytesToHex m.rawPadding ++ " body=" ++ bytesToHex m.rawBody ++
+            " ufds=" ++ attrStr (m.attrs .unixFds) ++ " wf=" ++ wfBit m.raw
+      | _, _, _, _, _, _, _ => "bad-input"
+    | _, _, _, _, _, _, _ => "bad-input"
+  | _ => "bad-input"
+
+def attrNames : List (Attr × String) :=
+  [(.path, "path"), (.interface, "interface"), (.member, "member"), (.errorName, "error_name"),
+   (.replySerial, "reply_serial"), (.destination, "destination"), (.sender, "sender"),
+   (.signature, "signature"), (.unixFds, "unix_fds")]
+
+def parseStep (toks : List String) : String :=
+  match toks with
+  | [h, f] =>
+    match hexToBytes? h, fds? f with
+    | some raw, some fds =>
+      let T := Gen.Message.tables
+      match parseMessage T preCodec raw fds with
+      | .error e => "err kind=" ++ pyErrName e
+      | .ok m =>
+        "ok type=" ++ toString (T.messageType m.cls) ++ " serial=" ++ toString m.serial ++
+        " er=" ++ tf m.expectReply ++ " as=" ++ tf m.autoStart ++
+        String.join (attrNames.map fun (a, n) => " " ++ n ++ "=" ++ attrStr (m.attrs a)) ++
+        " hdr=" ++ toString m.rawHeader.length ++ " pad=" ++ bytesToHex m.rawPadding ++
+        " body=" ++ bytesToHex m.rawBody
+    | _, _ => "bad-input"
+  | _ => "bad-input"
+
+def basicOfTok? (t : String) : Option Basic :=
+  match t.toList with
+  | [c] => Basic.ofCode? c
+  | _ => none
+
+def specFields : Nat → List String → Option (List Field × List String)
+  | 0, toks => some ([], toks)
+  | n + 1, code :: tc :: val :: rest =>
+    match code.toNat?, basicOfTok? tc with
+    | some code, some c =>
+      let v : Option HVal :=
+        if isText c then
+          (if val.startsWith "s" then (hexToChars? (val.drop 1).toString).map (HVal.text c) else none)
+        else val.toNat?.map (HVal.num c)
+      match v, specFields n rest with
+      | some v, some (fs, r) => some ((code, v) :: fs, r)
+      | _, _ => none
+    | _, _ => none
+  | _, _ => none
+
+def specStep (toks : List String) : String :=
+  match toks with
+  | e :: mtype :: flags :: serial :: n :: rest =>
+    match (if e == "l" then some Endian.little else if e == "B" then some Endian.big else none),
+          mtype.toNat?, flags.toNat?, serial.toNat?, n.toNat? with
+    | some e, some mtype, some flags, some serial, some n =>
+      match specFields n rest with
+      | some (fs, [bh]) =>
+        match hexToBytes? bh with
+        | some body => bytesToHex (Spec.encodeMsg ⟨e, mtype, flags, serial, fs, body⟩)
+        | none => "bad-input"
+      | _ => "bad-input"
+    | _, _, _, _, _ => "bad-input"
+  | _ => "bad-input"
+
+def step (line : String) : String :=
+  match words line with
+  | "build" :: toks => buildStep toks
+  | "parse" :: toks => parseStep toks
+  | "spec" :: toks => specStep toks
+  | _ => "bad-input"
+
+def main : IO Unit := Driver.run (fun (s : Unit) line => (s, step line)) ()
